@@ -48,8 +48,8 @@ pub fn c01_shapes() -> Vec<ShapeSpec> {
         v.push(ShapeSpec::Polygon(n));
     }
     v.push(ShapeSpec::Circle);
-    // (the last two: small arms, so the disc reaching farthest is not the one whose centre is farthest)
-    for &(r, a, d) in [(0.637556, 120., 1.), (0.7, 180., 1.5), (1., 180., 2.), (0.5, 60., 1.2), (0.3, 120., 1.), (0.2, 90., 1.1)].iter() {
+    // (the last three: small arms, so the disc reaching farthest is not the one whose centre is farthest; in the last one the central disc out-reaches both)
+    for &(r, a, d) in [(0.637556, 120., 1.), (0.7, 180., 1.5), (1., 180., 2.), (0.5, 60., 1.2), (0.3, 120., 1.), (0.2, 90., 1.1), (0.2, 120., 0.2)].iter() {
         v.push(ShapeSpec::Trimer(r, a, d));
     }
     v
@@ -260,6 +260,36 @@ pub fn c01(tier: Tier) -> ! {
                                 for &length in lengths.iter() {
                                     let p = Params { length, ratio, angle, x, y, phi };
                                     c01_eval(&tpl, group, spec, &body, &p, &mut out, "special positions");
+                                }
+                            }
+                        }
+                    }
+                }
+                // two occupied general sites (the library accepts any list of sites): the second
+                // site near the first one's images across a cell face, and at generic offsets
+                let general = wyckoff_json(group);
+                for (ratio, angle) in cell_grid(group, tier).into_iter().filter(|(r, _)| *r == 1. || *r == 0.51 || *r == 0.2) {
+                    let lengths = length_ladder(&body, 2 * n, ratio, angle, tier.pick(0.93, 0.97));
+                    for &(x1, y1, x2, y2, phi2) in [(-0.45, 0.1, 0.45, 0.12, 0.3), (0.1, -0.47, 0.13, 0.46, 2.5), (0.2, 0.2, -0.3, -0.1, 1.1), (-0.48, -0.48, 0.47, 0.49, 0.)].iter() {
+                        for &length in lengths.iter() {
+                            let p = Params { length, ratio, angle, x: x1, y: y1, phi: 0.7 };
+                            let doc = with_second_site(&tpl.with(&p), &general, x2, y2, phi2);
+                            out.evals += 1;
+                            let st = match AnyState::from_json(&doc) {
+                                Ok(s) => s,
+                                Err(e) => machinery_error(&format!("two-site state does not deserialise: {}", e)),
+                            };
+                            let (scored, fail, ov) = c01_judge(&st, &body, &p);
+                            if scored {
+                                out.scored += 1;
+                                if ov.as_ref().map(|o| o.close_pairs > 0).unwrap_or(false) {
+                                    out.nontrivial += 1;
+                                }
+                            }
+                            if let Some((what, extra)) = fail {
+                                out.fail_count += 1;
+                                if out.fails.len() < 2 {
+                                    out.fails.push((format!("{} {} with two occupied sites: {}", group, spec.label(), what), json!({"engine": "document", "lattice": "two sites", "group": group, "shape_label": spec.label(), "state": doc, "detail": extra})));
                                 }
                             }
                         }
@@ -506,7 +536,11 @@ pub fn lj_oracle(st: &AnyState, shape: &Value, p: &Params) -> Option<LjOracle> {
     if nmax > 2000 || mmax > 2000 || (nmax as i128 * mmax as i128) > 400_000 {
         return None;
     }
-    let shapes: Vec<packing::LJShape2> = placements.iter().map(|t| s.shape.transform(t)).collect();
+    // particles from the document (position, sigma, epsilon, cutoff), placed by the oracle's own
+    // arithmetic: nothing of the crate's shape transform enters
+    let parts: Vec<(P2, f64, f64, Option<f64>)> = items.iter().map(|it| ([it["position"][0].as_f64().unwrap_or(f64::NAN), it["position"][1].as_f64().unwrap_or(f64::NAN)], it["sigma"].as_f64().unwrap_or(f64::NAN), it["epsilon"].as_f64().unwrap_or(f64::NAN), it["cutoff"].as_f64())).collect();
+    let affs: Vec<Aff> = placements.iter().map(Aff::from_t2).collect();
+    let placed: Vec<Vec<P2>> = affs.iter().map(|a| parts.iter().map(|q| a.apply(q.0)).collect()).collect();
     let mut sum = 0.;
     let mut pairs = 0usize;
     let mut beyond = false;
@@ -522,18 +556,21 @@ pub fn lj_oracle(st: &AnyState, shape: &Value, p: &Params) -> Option<LjOracle> {
                     if dc > reach {
                         continue;
                     }
-                    let tj = Aff::from_t2(&placements[j]).shifted(l).to_t2();
-                    let moved = s.shape.transform(&tj);
                     // like particles: the 12-6 law in closed form (independent of the crate and
                     // of anything it may remember between calls); unlike particles: the crate's
-                    // own pair energy, symmetrised (the property fixes no mixing rule)
+                    // own pair energy on freshly built particles, symmetrised (the property fixes
+                    // no mixing rule)
                     let mut e = 0.;
-                    for a in shapes[i].items.iter() {
-                        for b in moved.items.iter() {
-                            if a.sigma == b.sigma && a.epsilon == b.epsilon && a.cutoff == b.cutoff {
-                                e += lj_closed_form(a.sigma, a.epsilon, a.cutoff, (a.position - b.position).norm());
+                    for (ka, a) in parts.iter().enumerate() {
+                        for (kb, b) in parts.iter().enumerate() {
+                            let pa = placed[i][ka];
+                            let pb = add(placed[j][kb], l);
+                            if a.1 == b.1 && a.2 == b.2 && a.3 == b.3 {
+                                e += lj_closed_form(a.1, a.2, a.3, norm(sub(pa, pb)));
                             } else {
-                                e += 0.5 * (a.energy(b) + b.energy(a));
+                                let x = packing::LJ2 { position: nalgebra::Point2::new(pa[0], pa[1]), sigma: a.1, epsilon: a.2, cutoff: a.3 };
+                                let y = packing::LJ2 { position: nalgebra::Point2::new(pb[0], pb[1]), sigma: b.1, epsilon: b.2, cutoff: b.3 };
+                                e += 0.5 * (x.energy(&y) + y.energy(&x));
                             }
                         }
                     }
@@ -760,7 +797,7 @@ pub fn c03(tier: Tier) -> ! {
                                 }
                                 // re-descriptions of the same crystal: a copy moved across a face,
                                 // the origin shifted by half a lattice vector
-                                let shifts: Vec<(f64, f64)> = vec![(1., 0.), (0., -1.), (0.5, 0.), (0., 0.5), (0.5, 0.5)];
+                                let shifts: Vec<(f64, f64)> = vec![(1., 0.), (0., -1.), (0.5, 0.), (0., 0.5), (0.5, 0.5), (3., 0.), (-4., 3.)];
                                 for (dx, dy) in shifts {
                                     // a site shift by a half lattice vector re-describes the same
                                     // crystal iff it commutes with every operation modulo the
@@ -915,10 +952,15 @@ pub fn c04_judge(group: &str, placements: &[Aff], probe_pts: &[P2], p: &Params) 
 
 /// The same judge on point sets placed by the crate's own shape transform.
 pub fn c04_judge_sets(group: &str, sets: &[Vec<P2>], p: &Params) -> Option<String> {
+    c04_judge_sets_n(group, sets, p, ita_ops(group).len())
+}
+
+/// `expected`: the number of copies in the cell (the sum of the occupied sites' multiplicities).
+pub fn c04_judge_sets_n(group: &str, sets: &[Vec<P2>], p: &Params, expected: usize) -> Option<String> {
     let ops = ita_ops(group);
     let lat = p.lattice();
-    if sets.len() != ops.len() {
-        return Some(format!("{} placed copies for a group of order {}", sets.len(), ops.len()));
+    if sets.len() != expected {
+        return Some(format!("{} placed copies where the occupied sites hold {}", sets.len(), expected));
     }
     let scale = lat.a[0].abs().max(norm(lat.b)).max(1.);
     for (oi, op) in ops.iter().enumerate() {
@@ -1045,6 +1087,31 @@ pub fn c04(tier: Tier) -> ! {
             if let Some(what) = c04_judge(group, &st.cartesian(), &spec.body().points(), &p) {
                 fc += 1;
                 fails.push((format!("{} initial state: {}", group, what), json!({"group": group, "shape_label": spec.label()})));
+            }
+        }
+        // two occupied sites, the one of multiplicity one listed first or second, and two general
+        // sites: the crystal is the union of the sites' copies
+        let ident = wyckoff_json("p1");
+        let general = wyckoff_json(group);
+        let n = ita_ops(group).len();
+        for &(x, y, phi) in [(0.11, -0.2, 0.3), (-0.4, 0.33, 2.2)].iter() {
+            let p = Params { length: 3., ratio: 0.73, angle: PI / 2., x, y, phi };
+            let one = tpl.with(&p);
+            let mut swapped = with_second_site(&one, &ident, 0.27, 0.4, 1.3);
+            swapped["occupied_sites"].as_array_mut().unwrap().swap(0, 1);
+            for (label, doc, expected) in [("general site first", with_second_site(&one, &ident, 0.27, 0.4, 1.3), n + 1), ("site of multiplicity one first", swapped, n + 1), ("two general sites", with_second_site(&one, &general, 0.27, 0.4, 1.3), 2 * n)].iter() {
+                // (the site of multiplicity one is its own image only in p1: elsewhere such a
+                // document is not a crystal of the group, only the copy count is judged)
+                let st = AnyState::from_json(doc).unwrap_or_else(|e| machinery_error(&e));
+                evals += 1;
+                let sets = st.placed_points();
+                let verdict = if *expected == 2 * n || *group == "p1" { c04_judge_sets_n(group, &sets, &p, *expected) } else if sets.len() != *expected { Some(format!("{} placed copies where the occupied sites hold {}", sets.len(), expected)) } else { None };
+                if let Some(what) = verdict {
+                    fc += 1;
+                    if fails.len() < 4 {
+                        fails.push((format!("{} ({}) with two occupied sites ({}): {}", group, kind, label, what), json!({"engine": "document", "group": group, "state": doc})));
+                    }
+                }
             }
         }
         (evals, fc, fails)
